@@ -1,3 +1,16 @@
+/-
+  C17 — ToolsNode answers every tool call, in call order, whatever the completion order.
+  Property theorems.  Model: EinoV/Model/C17.lean.  Helper lemmas: EinoV/Proofs/C17.lean.
+  Source facts: EinoV/Gen/FactsC17.lean (regenerated from /repo on every run).
+
+  Reading guide.  `invoke F tools handler assistant calls seen σ` is `ToolsNode.Invoke` when
+  the runners complete in the order σ (a permutation of the call positions); `stream …` is
+  `ToolsNode.Stream` (on success: the n source streams handed to `MergeStreamReaders`);
+  `Interleaving srcs m` says `m` is something a reader of the merged stream can receive;
+  `collect` is `concatStreamReader` with `concatMessageArray`.  `answerI/answerS … c` is what
+  the tool named by call `c` (or the unknown-tool handler) gives on `c`'s arguments in the
+  invokable / streamable form.  Tools and the handler are arbitrary functions.
+-/
 import EinoV.Model.C17
 import EinoV.Proofs.C17
 import EinoV.Gen.FactsC17
@@ -12,7 +25,354 @@ def genFacts : Facts :=
     taskPassedAsArg := FactsC17.taskPassedAsArg, handlerConsulted := FactsC17.handlerConsulted,
     executorRecovers := FactsC17.executorRecovers }
 
+/-- Source fact tie: the regenerated facts are the ones the oracle runs the model with, and
+    the two shape facts the model has built in (call 0 runs inline on the caller's goroutine,
+    the loop starts the goroutines for 1..n-1; task i is made from call i) hold. -/
 theorem facts_match : genFacts = Expected.C17.facts ∧ FactsC17.firstTaskInline = true
     ∧ FactsC17.taskFromSameCall = true := by decide
+
+theorem genFacts_good : genFacts.Good := ⟨by decide, by decide, by decide⟩
+theorem genFacts_handler : genFacts.handlerConsulted = true := by decide
+theorem genFacts_executor : genFacts.executorRecovers = true := by decide
+
+variable (tools : List (String × Tool)) (handler : Option Handler)
+
+/-! ## completion order -/
+
+/-- **completion_order_irrelevant.** For every input (any role, any call list, unknown
+    names, failing and panicking tools) the results of Invoke and of Stream do not depend on
+    the order in which the runners complete. -/
+theorem completion_order_irrelevant (assistant : Bool) (calls : List Call) (seen seen' : Nat → Nat)
+    (σ σ' : List Nat) (hσ : σ.Perm (List.range calls.length)) (hσ' : σ'.Perm (List.range calls.length)) :
+    invoke genFacts tools handler assistant calls seen σ
+      = invoke genFacts tools handler assistant calls seen' σ'
+    ∧ stream genFacts tools handler assistant calls seen σ
+      = stream genFacts tools handler assistant calls seen' σ' := by
+  constructor
+  · rcases invoke_cases genFacts_good tools handler assistant calls seen σ hσ with ⟨e, h1, h2⟩ | ⟨t, h1, h2⟩ <;>
+    rcases invoke_cases genFacts_good tools handler assistant calls seen' σ' hσ' with ⟨e', h1', h2'⟩ | ⟨t', h1', h2'⟩
+    · rw [h2, h2']; rw [h1] at h1'; cases h1'; rfl
+    · rw [h1] at h1'; cases h1'
+    · rw [h1] at h1'; cases h1'
+    · rw [h2, h2']; rw [h1] at h1'; cases h1'; rfl
+  · rcases stream_cases genFacts_good tools handler assistant calls seen σ hσ with ⟨e, h1, h2⟩ | ⟨t, h1, h2⟩ <;>
+    rcases stream_cases genFacts_good tools handler assistant calls seen' σ' hσ' with ⟨e', h1', h2'⟩ | ⟨t', h1', h2'⟩
+    · rw [h2, h2']; rw [h1] at h1'; cases h1'; rfl
+    · rw [h1] at h1'; cases h1'
+    · rw [h1] at h1'; cases h1'
+    · rw [h2, h2']; rw [h1] at h1'; cases h1'; rfl
+
+/-! ## exactly N messages, the i-th with the i-th id and the i-th tool's output -/
+
+/-- **tools_by_index.** If every call's tool (or the handler) answers `v c` on the call's
+    arguments, then for every completion order Invoke returns exactly one message per call,
+    in call order, the i-th with the i-th call's id and that answer. -/
+theorem tools_by_index (calls : List Call) (hne : calls ≠ []) (v : Call → String)
+    (hall : ∀ c ∈ calls, answerI tools handler c = some (.ok (v c)))
+    (seen : Nat → Nat) (σ : List Nat) (hσ : σ.Perm (List.range calls.length)) :
+    invoke genFacts tools handler true calls seen σ = .ok (calls.map fun c => ⟨c.id, v c⟩) := by
+  have hres : ∀ c ∈ calls, resolve tools handler c = some (pick tools handler c) :=
+    fun c hc => resolve_pick (answerI_pick (hall c hc)).1
+  rw [invoke_eq_spec genFacts_good genFacts_handler hne _ hres seen σ hσ]
+  apply specRun_all_ok
+  intro i hi
+  refine ⟨v calls[i], ?_, ?_⟩
+  · rw [execWith_taskFor _ _ _ _ hi]; exact (answerI_pick (hall _ (List.getElem_mem hi))).2
+  · simp [idAt_taskFor _ _ _ hi]
+
+/-! ## the streamed form concatenates to the same list -/
+
+/-- **tools_stream_agrees.** If every call's tool streams the chunks `cs c` (at least one)
+    and each tool's invokable form is the concatenation of its streamable form (automatic
+    for invokable-only / streamable-only tools and the handler: `coherent_of_no_str`,
+    `coherent_of_no_inv`), then for all completion orders σ, σ' of the two runs: Stream
+    succeeds, Invoke returns the messages `msgs` (i-th id, concatenated chunks), and EVERY
+    interleaving of the n sparse chunk streams concatenates to exactly `msgs`. -/
+theorem tools_stream_agrees (calls : List Call) (hne : calls ≠ []) (cs : Call → List String)
+    (hall : ∀ c ∈ calls, answerS tools handler c = some (.ok (cs c)) ∧ cs c ≠ [])
+    (hcoh : ∀ c ∈ calls, Coherent (pick tools handler c))
+    (seen seen' : Nat → Nat) (σ σ' : List Nat)
+    (hσ : σ.Perm (List.range calls.length)) (hσ' : σ'.Perm (List.range calls.length)) :
+    ∃ srcs, stream genFacts tools handler true calls seen' σ' = .ok srcs ∧
+      invoke genFacts tools handler true calls seen σ
+        = .ok (calls.map fun c => ⟨c.id, joinS (cs c)⟩) ∧
+      ∀ m, Interleaving srcs m →
+        collect m = .ok ((calls.map fun c => (⟨c.id, joinS (cs c)⟩ : Msg)).map some) := by
+  have hI : ∀ c ∈ calls, answerI tools handler c = some (.ok (joinS (cs c))) := by
+    intro c hc
+    obtain ⟨hs, hne'⟩ := hall c hc
+    obtain ⟨hr, hp⟩ := answerS_pick hs
+    unfold answerI
+    rw [resolve_pick hr]
+    simp only [Option.map_some]
+    rw [hcoh c hc, hp]
+    simp [Out.bind, concatChunks_ne hne']
+  have hres : ∀ c ∈ calls, resolve tools handler c = some (pick tools handler c) :=
+    fun c hc => resolve_pick (answerS_pick (hall c hc).1).1
+  have hn : 0 < calls.length := by cases calls <;> simp_all
+  let ids : Nat → String := fun i => idAt (calls.map (taskFor (pick tools handler))) i
+  let chunks : Nat → List String := fun i =>
+    match calls[i]? with
+    | some c => cs c
+    | none => []
+  have hchunks : ∀ i (h : i < calls.length), chunks i = cs calls[i] := by
+    intro i h; simp [chunks, List.getElem?_eq_getElem h]
+  refine ⟨(List.range calls.length).map fun i => (chunks i).map fun s => sparse calls.length i ⟨ids i, s⟩, ?_,
+    tools_by_index tools handler calls hne _ hI seen σ hσ, ?_⟩
+  · rw [stream_eq_spec genFacts_good genFacts_handler hne _ hres seen' σ' hσ']
+    apply specRun_all_ok'
+    intro i hi
+    refine ⟨cs calls[i], ?_, ?_⟩
+    · rw [execWith_taskFor _ _ _ _ hi]; exact (answerS_pick (hall _ (List.getElem_mem hi)).1).2
+    · simp [hchunks i hi, ids]
+  · intro m hm
+    rw [collect_interleaving calls.length hn ids chunks
+      (fun i hi => by rw [hchunks i hi]; exact (hall _ (List.getElem_mem hi)).2) m hm]
+    congr 1
+    apply List.ext_getElem
+    · simp
+    · intro i h1 h2
+      have hi : i < calls.length := by simpa using h1
+      simp [hchunks i hi, ids, idAt_taskFor _ _ _ hi]
+
+/-! ## a failing tool fails the whole call with that tool's error -/
+
+/-- **tool_failure_fails_all.** Split the calls at the first one (by position) whose tool
+    does not answer: `pre` all answer, `c` fails, `post` arbitrary (but every name
+    resolvable, else nothing runs at all: `unknown_tool_iff_handler`).  Then for EVERY
+    completion order — also when later calls fail too and complete earlier —
+    * an error `e` of `c`'s tool: the call fails with exactly that error, tagged with `c`'s
+      position;
+    * a panic of `c`'s tool, `c` not the first call: it ran in a goroutine with a deferred
+      recover, the call fails with the panic as `c`'s error;
+    * a panic of the first call (it runs inline on the caller's goroutine): the panic leaves
+      `Invoke`; inside a graph the executor's recover makes it the error of the run.
+    So with several failing tools the reported error is the one of least call position,
+    never "the first to complete". -/
+theorem tool_failure_fails_all (pre : List Call) (c : Call) (post : List Call)
+    (hpre : ∀ c' ∈ pre, ∃ s, answerI tools handler c' = some (.ok s))
+    (hres : ∀ c' ∈ pre ++ c :: post, (resolve tools handler c').isSome)
+    (seen : Nat → Nat) (σ : List Nat) (hσ : σ.Perm (List.range (pre ++ c :: post).length)) :
+    (∀ e, answerI tools handler c = some (.err e) →
+      invoke genFacts tools handler true (pre ++ c :: post) seen σ = .err (.tool pre.length e)) ∧
+    (∀ p, answerI tools handler c = some (.panic p) → pre ≠ [] →
+      invoke genFacts tools handler true (pre ++ c :: post) seen σ
+        = .err (.tool pre.length (.panicked p))) ∧
+    (∀ p, answerI tools handler c = some (.panic p) → pre = [] →
+      invoke genFacts tools handler true (pre ++ c :: post) seen σ = .panicEscapes p ∧
+      inGraph genFacts (invoke genFacts tools handler true (pre ++ c :: post) seen σ)
+        = .err (.nodePanic p)) := by
+  have hne : pre ++ c :: post ≠ [] := by simp
+  have hres' : ∀ c' ∈ pre ++ c :: post, resolve tools handler c' = some (pick tools handler c') :=
+    fun c' hc' => resolve_pick (hres c' hc')
+  rw [invoke_eq_spec genFacts_good genFacts_handler hne _ hres' seen σ hσ]
+  obtain ⟨h1, h2, h3⟩ := spec_first_failure packInvoke
+    (fun i s => (⟨idAt ((pre ++ c :: post).map (taskFor (pick tools handler))) i, s⟩ : Msg))
+    (pick tools handler) pre c post (fun c' hc' => by
+      obtain ⟨s, hs⟩ := hpre c' hc'
+      exact ⟨s, (answerI_pick hs).2⟩)
+  refine ⟨fun e he => h1 e (answerI_pick he).2, fun p hp hn => h2 p (answerI_pick hp).2 hn,
+    fun p hp hn => ?_⟩
+  have := h3 p (answerI_pick hp).2 hn
+  exact ⟨this, by rw [this]; simp [inGraph, genFacts_executor]⟩
+
+/-- **tool_failure_fails_stream.** The same for `Stream` (failures at call time: the
+    streamable function returns an error / panics, or the invokable one does for an
+    invokable-only tool). -/
+theorem tool_failure_fails_stream (pre : List Call) (c : Call) (post : List Call)
+    (hpre : ∀ c' ∈ pre, ∃ s, answerS tools handler c' = some (.ok s))
+    (hres : ∀ c' ∈ pre ++ c :: post, (resolve tools handler c').isSome)
+    (seen : Nat → Nat) (σ : List Nat) (hσ : σ.Perm (List.range (pre ++ c :: post).length)) :
+    (∀ e, answerS tools handler c = some (.err e) →
+      stream genFacts tools handler true (pre ++ c :: post) seen σ = .err (.tool pre.length e)) ∧
+    (∀ p, answerS tools handler c = some (.panic p) → pre ≠ [] →
+      stream genFacts tools handler true (pre ++ c :: post) seen σ
+        = .err (.tool pre.length (.panicked p))) ∧
+    (∀ p, answerS tools handler c = some (.panic p) → pre = [] →
+      stream genFacts tools handler true (pre ++ c :: post) seen σ = .panicEscapes p ∧
+      inGraph genFacts (stream genFacts tools handler true (pre ++ c :: post) seen σ)
+        = .err (.nodePanic p)) := by
+  have hne : pre ++ c :: post ≠ [] := by simp
+  have hres' : ∀ c' ∈ pre ++ c :: post, resolve tools handler c' = some (pick tools handler c') :=
+    fun c' hc' => resolve_pick (hres c' hc')
+  rw [stream_eq_spec genFacts_good genFacts_handler hne _ hres' seen σ hσ]
+  obtain ⟨h1, h2, h3⟩ := spec_first_failure packStream
+    (fun i (cs : List String) => cs.map fun s => sparse (pre ++ c :: post).length i
+      ⟨idAt ((pre ++ c :: post).map (taskFor (pick tools handler))) i, s⟩)
+    (pick tools handler) pre c post (fun c' hc' => by
+      obtain ⟨s, hs⟩ := hpre c' hc'
+      exact ⟨s, (answerS_pick hs).2⟩)
+  refine ⟨fun e he => h1 e (answerS_pick he).2, fun p hp hn => h2 p (answerS_pick hp).2 hn,
+    fun p hp hn => ?_⟩
+  have := h3 p (answerS_pick hp).2 hn
+  exact ⟨this, by rw [this]; simp [inGraph, genFacts_executor]⟩
+
+/-! ## unknown tool names -/
+
+/-- **unknown_tool_iff_handler.** Let `c` be the first call whose name is not configured.
+    Without a handler the call fails with "unknown tool `c.name`" (before any tool runs, for
+    every σ); with a handler it never fails that way. -/
+theorem unknown_tool_iff_handler (pre : List Call) (c : Call) (post : List Call)
+    (hpre : ∀ c' ∈ pre, (lookup tools c'.name).isSome) (hc : lookup tools c.name = none)
+    (seen : Nat → Nat) (σ : List Nat) (hσ : σ.Perm (List.range (pre ++ c :: post).length)) :
+    (invoke genFacts tools handler true (pre ++ c :: post) seen σ = .err (.unknownTool c.name)
+      ∧ stream genFacts tools handler true (pre ++ c :: post) seen σ = .err (.unknownTool c.name))
+    ↔ handler = none := by
+  constructor
+  · intro ⟨hi, _⟩
+    cases hh : handler with
+    | none => rfl
+    | some h =>
+      exfalso
+      subst hh
+      have hres : ∀ c' ∈ pre ++ c :: post, resolve tools (some h) c' = some (pick tools (some h) c') :=
+        fun c' _ => resolve_pick (resolve_isSome_of_handler tools h c')
+      rw [invoke_eq_spec genFacts_good genFacts_handler (by simp) _ hres seen σ hσ] at hi
+      obtain ⟨i, te, hte⟩ := specRun_err_is_tool _ _ _ _ hi
+      cases hte
+  · intro hh
+    subst hh
+    have hg := genTasks_unknown (F := genFacts) genFacts_handler (tools := tools) (handler := none)
+      pre c post (fun c' hc' => by
+        unfold resolve
+        obtain ⟨t, ht⟩ := Option.isSome_iff_exists.1 (hpre c' hc')
+        simp [ht]) (resolve_none_iff.2 ⟨hc, rfl⟩)
+    constructor
+    · unfold invoke; rw [hg]
+    · unfold stream; rw [hg]
+
+/-- **unknown_tool_answered_by_handler.** With a handler `h`, a call with an unknown name
+    is answered by `h name args`, and that answer is placed at that call's position with
+    that call's id (it is an instance of `tools_by_index`). -/
+theorem unknown_tool_answered_by_handler (h : Handler) (calls : List Call) (hne : calls ≠ [])
+    (v : Call → String) (hall : ∀ c ∈ calls, answerI tools (some h) c = some (.ok (v c)))
+    (seen : Nat → Nat) (σ : List Nat) (hσ : σ.Perm (List.range calls.length)) :
+    invoke genFacts tools (some h) true calls seen σ = .ok (calls.map fun c => ⟨c.id, v c⟩) ∧
+    ∀ c ∈ calls, lookup tools c.name = none → h c.name c.args = .ok (v c) := by
+  refine ⟨tools_by_index tools (some h) calls hne v hall seen σ hσ, fun c hc hl => ?_⟩
+  have := hall c hc
+  simpa [answerI, resolve, hl, handlerTool, packInvoke] using this
+
+/-! ## panics -/
+
+/-- **panic_contained.** For every input and every completion order: no panic of a tool
+    kills the process (every goroutine recovers), and inside a graph run the node's result
+    is a value or an error — never a panic (the executor recovers what leaves the inline
+    call). -/
+theorem panic_contained (assistant : Bool) (calls : List Call) (seen : Nat → Nat) (σ : List Nat)
+    (hσ : σ.Perm (List.range calls.length)) :
+    invoke genFacts tools handler assistant calls seen σ ≠ .crash ∧
+    stream genFacts tools handler assistant calls seen σ ≠ .crash ∧
+    ((∃ l, inGraph genFacts (invoke genFacts tools handler assistant calls seen σ) = .ok l) ∨
+      ∃ e, inGraph genFacts (invoke genFacts tools handler assistant calls seen σ) = .err e) ∧
+    ((∃ l, inGraph genFacts (stream genFacts tools handler assistant calls seen σ) = .ok l) ∨
+      ∃ e, inGraph genFacts (stream genFacts tools handler assistant calls seen σ) = .err e) := by
+  have key : ∀ {α : Type} (r : Res α), r ≠ .crash →
+      (∃ l, inGraph genFacts r = .ok l) ∨ ∃ e, inGraph genFacts r = .err e := by
+    intro α r hr
+    cases r with
+    | ok a => exact .inl ⟨a, rfl⟩
+    | err e => exact .inr ⟨e, rfl⟩
+    | panicEscapes p => exact .inr ⟨.nodePanic p, by simp [inGraph, genFacts_executor]⟩
+    | crash => exact absurd rfl hr
+  have hi : invoke genFacts tools handler assistant calls seen σ ≠ .crash := by
+    rcases invoke_cases genFacts_good tools handler assistant calls seen σ hσ with ⟨e, _, h2⟩ | ⟨t, _, h2⟩
+    · rw [h2]; simp
+    · rw [h2]; exact specRun_no_crash _ _ _
+  have hs : stream genFacts tools handler assistant calls seen σ ≠ .crash := by
+    rcases stream_cases genFacts_good tools handler assistant calls seen σ hσ with ⟨e, _, h2⟩ | ⟨t, _, h2⟩
+    · rw [h2]; simp
+    · rw [h2]; exact specRun_no_crash _ _ _
+  exact ⟨hi, hs, key _ hi, key _ hs⟩
+
+/-! ## interleavings exist; the oracle's merge is one -/
+
+/-- **merge_is_interleaving.** The executable merge the oracle uses yields an interleaving
+    for every schedule (so `tools_stream_agrees` applies to what the oracle computes, and
+    its hypothesis `Interleaving srcs m` is satisfiable for all `srcs`). -/
+theorem merge_is_interleaving {β : Type} (sched : List Nat) (srcs : List (List β)) :
+    Interleaving srcs (mergeBy sched srcs) := mergeBy_interleaving sched srcs
+
+/-! ## non-vacuity: concrete tools, calls, an out-of-order completion -/
+
+section Examples
+
+def exEcho (tag : String) : Tool := ⟨some fun a => .ok (tag ++ a), none⟩
+def exStr : Tool := ⟨none, some fun a => .ok ["<", a, ">"]⟩
+def exFail (k : Nat) : Tool := ⟨some fun _ => .err (.user k), none⟩
+def exBoom (k : Nat) : Tool := ⟨some fun _ => .panic k, none⟩
+def exTools : List (String × Tool) :=
+  [("a", exEcho "A"), ("s", exStr), ("f", exFail 7), ("g", exFail 8), ("p", exBoom 9)]
+def exCalls : List Call := [⟨"c0", "a", "x"⟩, ⟨"c1", "s", "y"⟩, ⟨"c2", "a", "z"⟩]
+def exFacts : Facts := Expected.C17.facts
+
+end Examples
+
+/-- three calls completing in the order 2,0,1: answers in call order, ids by position -/
+example : invoke exFacts exTools none true exCalls id [2, 0, 1]
+    = .ok [⟨"c0", "Ax"⟩, ⟨"c1", "<y>"⟩, ⟨"c2", "Az"⟩] := by decide
+
+/-- the streamed form, merged by an arbitrary schedule, concatenates to the same list -/
+example : (match stream exFacts exTools none true exCalls id [1, 2, 0] with
+    | .ok srcs => (collect (mergeBy [1, 0, 1, 2] srcs)).toOption
+    | _ => none)
+    = some [some ⟨"c0", "Ax"⟩, some ⟨"c1", "<y>"⟩, some ⟨"c2", "Az"⟩] := by decide
+
+/-- two failing calls, the later one completing first: the error is the earlier call's -/
+example : invoke exFacts exTools none true [⟨"c0", "a", "x"⟩, ⟨"c1", "f", ""⟩, ⟨"c2", "g", ""⟩] id [2, 1, 0]
+    = .err (.tool 1 (.user 7)) := by decide
+
+/-- a panicking goroutine call is an error; a panicking inline call leaves the node -/
+example : invoke exFacts exTools none true [⟨"c0", "a", "x"⟩, ⟨"c1", "p", ""⟩] id [1, 0]
+    = .err (.tool 1 (.panicked 9)) := by decide
+example : inGraph exFacts (invoke exFacts exTools none true [⟨"c0", "p", ""⟩, ⟨"c1", "a", ""⟩] id [1, 0])
+    = .err (.nodePanic 9) := by decide
+
+/-- unknown name: error without handler, the handler's answer at that position with one -/
+example : invoke exFacts exTools none true [⟨"c0", "a", "x"⟩, ⟨"c1", "nope", "q"⟩] id [0, 1]
+    = .err (.unknownTool "nope") := by decide
+example : invoke exFacts exTools (some fun n a => .ok (n ++ "?" ++ a)) true
+      [⟨"c0", "nope", "q"⟩, ⟨"c1", "a", "x"⟩] id [1, 0]
+    = .ok [⟨"c0", "nope?q"⟩, ⟨"c1", "Ax"⟩] := by decide
+
+/-! ## negation witnesses: each source fact matters -/
+
+/-- results appended in completion order (instead of stored by index): a wrong answer -/
+theorem append_order_breaks :
+    invoke { exFacts with storeByIndex := false } exTools none true
+        [⟨"c0", "a", "x"⟩, ⟨"c1", "a", "y"⟩] id [1, 0]
+      = .ok [⟨"c0", "Ay"⟩, ⟨"c1", "Ax"⟩] := by decide
+
+/-- no recover in the goroutine: a panicking tool kills the process -/
+theorem no_recover_crashes :
+    invoke { exFacts with goroutineRecovers := false } exTools none true
+        [⟨"c0", "a", "x"⟩, ⟨"c1", "p", ""⟩] id [0, 1] = .crash := by decide
+
+/-- loop variable captured (go 1.18 semantics) and read late: call 1 is never answered -/
+theorem captured_loop_variable_breaks :
+    invoke { exFacts with taskPassedAsArg := false } exTools none true
+        [⟨"c0", "a", "x"⟩, ⟨"c1", "a", "y"⟩, ⟨"c2", "a", "z"⟩] (fun _ => 2) [0, 1, 2]
+      = .err (.stale 1) := by decide
+
+/-- handler not consulted: an unknown name fails although a handler is configured -/
+theorem handler_ignored_breaks :
+    invoke { exFacts with handlerConsulted := false } exTools (some fun n a => .ok (n ++ a)) true
+        [⟨"c0", "nope", "q"⟩] id [0] = .err (.unknownTool "nope") := by decide
+
+/-- no recover in the graph executor: a panic of the inline call would kill the run -/
+theorem no_executor_recover_crashes :
+    inGraph { exFacts with executorRecovers := false }
+      (invoke exFacts exTools none true [⟨"c0", "p", ""⟩] id [0]) = .crash := by decide
+
+/-- A streamable-only tool whose stream has NO chunk is outside `tools_stream_agrees`
+    (`cs c ≠ []`): Invoke fails (`emptyStreamConcatErr`) while the streamed form
+    concatenates to a list with a hole at that position. -/
+theorem empty_stream_disagrees :
+    let ts : List (String × Tool) := [("a", exEcho "A"), ("e", ⟨none, some fun _ => .ok []⟩)]
+    let calls : List Call := [⟨"c0", "a", "x"⟩, ⟨"c1", "e", ""⟩]
+    invoke exFacts ts none true calls id [0, 1] = .err (.tool 1 .emptyStream) ∧
+    (match stream exFacts ts none true calls id [0, 1] with
+      | .ok srcs => (collect (mergeBy [] srcs)).toOption
+      | _ => none) = some [some ⟨"c0", "Ax"⟩, none] := by decide
 
 end EinoV.C17
